@@ -150,6 +150,30 @@ def run(cx, rep):
     if hd:
         txt = [s(n["argument"]) for n in walk(hd["function"]) if n["type"] == "ReturnStatement"]
         rep.ob("C16.2", "hasDefinition-reads-table", len(txt) == 1 and defs_field in txt[0], "hasDefinition must consult the definition table (found %s)" % txt, mod.loc(hd))
+    # ---------------------------------------------------------------- C16.4
+    rep.rule("C16.4", "schema printing keeps no state on the validator instances (it is a function of the type and the context)")
+    MUT = {"set", "add", "push", "delete", "clear", "splice", "pop", "shift", "unshift"}
+    n_m = 0
+    for cname, c in sorted(mod.classes.items()):
+        if c is spc or "schema" not in c.methods:
+            continue
+        for mname in sorted(schema_reachable_methods(c)):
+            fn = c.methods[mname]["function"]
+            n_m += 1
+            for n in walk(fn):
+                bad = None
+                if n["type"] == "AssignmentExpression" and s(n["left"]).startswith("this."):
+                    bad = "assignment to %s" % s(n["left"])
+                elif n["type"] == "CallExpression":
+                    mc = method_call(n)
+                    if mc and mc[1] in MUT and s(mc[0]).startswith("this.") and s(mc[0]).count(".") == 1:
+                        bad = "%s.%s(..)" % (s(mc[0]), mc[1])
+                if bad:
+                    rep.ob("C16.4", "%s.%s/%s" % (cname, mname, bad), False,
+                           "%s.%s (reached from schema()) writes instance state (%s): what a later SchemaPrintingContext receives then depends on which contexts printed this validator before" % (cname, mname, bad),
+                           mod.loc(n))
+    rep.ob("C16.4", "scan", True, sample={"schema_reachable_methods_scanned": n_m})
+    rep.floor("C16.4", "schema-reachable methods", n_m, 22)
     # ---------------------------------------------------------------- C16.3
     rep.rule("C16.3", "the stored body is the schema of the named type itself")
     for cname, c in sorted(mod.classes.items()):
@@ -168,6 +192,23 @@ def run(cx, rep):
                 rep.ob("C16.3", "%s.%s/body" % (cname, mname), ok,
                        "the stored definition must be `<target>.schema(ctx)` with the caller's own ctx (found %s)" % (s(init) if init is not None else None), mod.loc(call),
                        sample={"site": "%s.%s" % (cname, mname), "body": s(init) if init is not None else None})
+
+
+def schema_reachable_methods(c):
+    """methods of class c reachable from schema() through this.<m>(..) / <Class>.<m>(..) calls"""
+    seen = set()
+    work = ["schema"]
+    while work:
+        m = work.pop()
+        if m in seen or m not in c.methods or c.methods[m]["function"].get("body") is None:
+            continue
+        seen.add(m)
+        for n in walk(c.methods[m]["function"]):
+            if n["type"] == "CallExpression":
+                mc = method_call(n)
+                if mc and (s(mc[0]) == "this" or s(mc[0]) == c.name):
+                    work.append(mc[1])
+    return seen
 
 
 def guarded_by_absence(fn, call, name):
